@@ -597,6 +597,11 @@ def _dedupe_context(ctx, ev):
             neg = not neg
         if c[0] == 'cast':
             c = c[2]
+        # std::binary_search(seen.begin(), seen.end(), *j) / std::find(..) != end: same membership question (whether the
+        # container answers it correctly - e.g. sortedness for binary_search - is the business of F-SORTED)
+        if c[0] == 'call' and c[1] in ('std::binary_search',) and len(c[2]) >= 3 and c[2][2] == ('deref', cur) and \
+                c[2][0][0] == 'mcall' and c[2][0][2][0] == 'var':
+            c = ('mcall', 'X::count', c[2][0][2], (('deref', cur),))
         if not (c[0] == 'mcall' and c[1].split('::')[-1] in ('count', 'contains') and c[2][0] == 'var' and
                 c[3] and c[3][0] == ('deref', cur)):
             continue
@@ -607,7 +612,7 @@ def _dedupe_context(ctx, ev):
         # sibling branch inserts *cursor into seen
         inserted = False
         for n in f.nodes:
-            if n['k'] == 'CXXMemberCallExpr' and 'callee' in n and f.unit.decl(n['callee'])['name'] == 'insert':
+            if n['k'] == 'CXXMemberCallExpr' and 'callee' in n and f.unit.decl(n['callee'])['name'] in ('insert', 'push_back', 'emplace_back', 'emplace'):
                 if ctx.tt.t(n.get('obj', -1)) == ('var', seen):
                     a = n.get('args', [])
                     if a and ctx.tt.t(a[0]) == ('deref', cur):
@@ -1012,9 +1017,20 @@ class PairEngine:
                     ok, notes = _benign_extra(ctx, extra_c, e)
                     if ok:
                         er.append(c)
+            witness = None
+            if not er:
+                for c in self.companions(ctx, 'L.erase'):
+                    if ctx.key_matches_pair(ctx.key_of(c.args[0], c.node), x, y):
+                        extra_c, extra_e = ctx.region_diff(c.node, e.node)
+                        if not extra_e:
+                            witness = witness or self._skipped_witness(ctx, extra_c, e, x, y)
             if er:
                 self.ok('F-PAIR.L', ctx, dict(function=f.display(), event=ctx.desc(e.node), companion=ctx.desc(er[0].node)))
                 e.extra['lerase'] = er[0]
+            elif witness:
+                self.R('F-PAIR.L').fail(Finding('F-PAIR.L', f.display(), site + ' <-> label erase', f.nloc(e.node),
+                                                'all copies of the edge are removed, but the erase of its label entry is skipped when %s: '
+                                                'the label of that pair outlives its edge' % witness))
             else:
                 self.fail('F-PAIR.L', ctx, site + ' <-> label erase', e.node,
                           'all copies of an edge are removed but the label entry of the pair is not erased in the '
@@ -1044,6 +1060,33 @@ class PairEngine:
                           'removed copies, read before the label is erased, in the same control region',
                           cands=[c for c in self.companions(ctx, 'T.') if c.kind in ('T.sub', 'T.set')],
                           classify=self.cls_key(ctx, x, y, reader=True))
+
+    def _skipped_witness(self, ctx, extra_deps, e, x, y):
+        """an ordering of the two endpoints for which the event executes but the companion, which sits under the extra
+        guards, does not: a concrete counterexample (e.g. x == y, a self-loop).  None when there is none / undecidable"""
+        f = ctx.fn
+        names = {(0, 1): '%s < %s', (1, 1): '%s == %s (a self-loop)', (1, 0): '%s > %s'}
+        for (va, vb) in ORDERINGS:
+            env = {x: va, y: vb}
+            vals = []
+            for dep in extra_deps:
+                if _benign_extra(ctx, [dep], e)[0]:
+                    vals.append(True)       # e.g. `removed > 0`: true whenever something was removed
+                    continue
+                t, pol = ctx.dep_term(dep)
+                v = eval_order(ctx.norm(t, e.node), env) if t is not None else None
+                vals.append(None if v is None else (bool(v) == pol))
+            if None in vals or all(vals):
+                continue
+            runs = True
+            for dep in ctx.region(e.node):
+                t, pol = ctx.dep_term(dep)
+                v = eval_order(ctx.norm(t, e.node), env) if t is not None else None
+                if v is not None and bool(v) != pol:
+                    runs = False
+            if runs:
+                return names[(va, vb)] % (show(x, f.unit), show(y, f.unit))
+        return None
 
     # -------------------------------------------------------------------------------------------- eraseIt
     def check_erase(self, ctx, e):
